@@ -538,15 +538,23 @@ def _inline_site(f, bid, idx, g, n):
 
     def nb(b):
         return cont if b == g.exit else base + b
+    extra = [0]
+    multi_return = sum(1 for gb in g.blocks.values() for ev in gb['events'] if ev['ev'] == 'return') > 1
     for gb in g.blocks.values():
         if gb['id'] == g.exit:
             continue
         evs = []
+        diamond = None
         for ev in gb['events']:
             if ev['ev'] == 'return':
                 if ev.get('e') is not None and retvar is not None:
-                    evs.append({'ev': 'assign', 'line': ev['line'], 'inlined_return': g.name,
-                                'e': {'k': 'assign', 'op': '=', 'l': dict(retvar), 'r': _map_expr(ev['e'], m)}})
+                    cond = _bool_value_expr(ev['e'], True) if multi_return else None
+                    if cond is not None and ev is gb['events'][-1]:
+                        # `return a == b;` of a helper with several returns: the caller branches on the comparison
+                        diamond = (_map_expr(cond, m), ev['line'])
+                    else:
+                        evs.append({'ev': 'assign', 'line': ev['line'], 'inlined_return': g.name,
+                                    'e': {'k': 'assign', 'op': '=', 'l': dict(retvar), 'r': _map_expr(ev['e'], m)}})
                 continue
             ne = {kk: (_map_expr(v, m) if kk in ('e', 'init') else v) for kk, v in ev.items()}
             if ev['ev'] == 'decl':
@@ -564,6 +572,15 @@ def _inline_site(f, bid, idx, g, n):
         if gb.get('noreturn'):
             nblk['noreturn'] = True
             nblk['succs'] = []
+        if diamond is not None:
+            extra[0] += 2
+            tb, fb = cont + extra[0] - 1, cont + extra[0]
+            for bidx, val in ((tb, 1), (fb, 0)):
+                f.blocks[bidx] = {'id': bidx, 'succs': [cont], 'events': [
+                    {'ev': 'assign', 'line': diamond[1], 'inlined_return': g.name, 'split_bool': True,
+                     'e': {'k': 'assign', 'op': '=', 'l': dict(retvar), 'r': {'k': 'int', 'v': val}}}]}
+            nblk['succs'] = [tb, fb]
+            nblk['term'] = {'cond': diamond[0], 'kind': 'IfStmt', 'line': diamond[1], 'split_bool': True}
         f.blocks[nblk['id']] = nblk
     cblk = {k: v for k, v in blk.items() if k not in ('id', 'events')}
     cblk['id'] = cont
